@@ -400,5 +400,34 @@ fn main() {
             }
         }
     });
+    // related bounds: spellings of one another (zero padding, pre-releases, revisions),
+    // evaluated with direct calls for both halves
+    const REL: [&str; 16] = ["", "0", "1", "1.0", "1.0.0", "1alpha", "1.0alpha", "1rc1", "1.0rc1", "1nb1", "1.0nb1", "1_", "2", "1.5", "1pl", "1.0pl1"];
+    run.bound("two-bound, related spellings: 16 x 16 (L, U) x 16 package versions x 4 operator combinations, halves by direct calls");
+    let rel: Vec<usize> = (0..REL.len()).collect();
+    par_items(&run, "C03 related bounds", &rel, |_, ai, t| {
+        for lo in REL {
+            for hi in REL {
+                for lop in [Op::Gt, Op::Ge] {
+                    for hop in [Op::Lt, Op::Le] {
+                        t.evals += 1;
+                        t.validated += 3;
+                        t.transitions += 3;
+                        t.nontrivial += 1;
+                        match two_bound(REL[*ai], lo, lop, hi, hop) {
+                            None => t.outcome("two-bound/related-consistent"),
+                            Some(obs) => t.violation(Violation::new(
+                                "two-bound",
+                                json!({"a": REL[*ai], "lo": lo, "lop": lop.text(), "hi": hi, "hop": hop.text()}),
+                                json!("matches iff both halves match"),
+                                obs,
+                                "conjunction of bounds",
+                            )),
+                        }
+                    }
+                }
+            }
+        }
+    });
     run.finish();
 }
